@@ -395,13 +395,12 @@ func (st *State) invoke(fr *Frame, f Func, args []Value, resultTo ssa.Value, isD
 	nf.isDeferredCall = isDeferred
 }
 
-// inStub reports whether stub is already on the stack (lets a stub call the real function).
+// inStub reports whether the call is made directly from the stub's own body (lets a stub call the
+// real function it replaces).
 func (st *State) inStub(stub *ssa.Function) bool {
 	g := st.g()
-	for i := len(g.frames) - 1; i >= 0; i-- {
-		if g.frames[i].fn == stub {
-			return true
-		}
+	if n := len(g.frames); n > 0 {
+		return g.frames[n-1].fn == stub
 	}
 	return false
 }
